@@ -373,9 +373,22 @@ where
         let (new_laidx, n_pstack) =
             self.parser
                 .lr_cactus(None, laidx, laidx + 1, n.pstack.clone(), &mut None);
+        // If no lexeme was shifted, the parser merely performed reductions under the real
+        // lookahead before hitting an error (or accept). Unless that led to accept, such a
+        // configuration must not be searched further: the repairs found from it would later be
+        // applied to the unreduced stack, where an inserted token (rather than the real
+        // lookahead) selects the reductions, and conflict resolution can make the two diverge.
+        let accepts = || {
+            matches!(
+                self.parser
+                    .stable
+                    .action(*n_pstack.val().unwrap(), self.parser.next_tidx(new_laidx)),
+                Action::Accept
+            )
+        };
         // A shifted lexeme is progress even if the stack looks the same afterwards (e.g. in
         // `E: E 'x'` reducing `E 'x'` to `E` and shifting another 'x' gives an identical stack).
-        if new_laidx > laidx || n.pstack != n_pstack {
+        if new_laidx > laidx || (n.pstack != n_pstack && accepts()) {
             let n_repairs = if new_laidx > laidx {
                 n.repairs.child(RepairMerge::Repair(Repair::Shift))
             } else {
